@@ -1,5 +1,6 @@
 From Coq Require Import List NArith Bool.
-From V.C13 Require Import Model Proofs Flush.
+From V.C04 Require Model.
+From V.C13 Require Import Model Proofs Flush Inbound Tables TwoNode TwoNodeProofs.
 Import ListNotations.
 Open Scope N_scope.
 From V.C13 Require Import Properties.
@@ -119,3 +120,83 @@ Check (C13_unrepaired_refuted :
      let '(s2, o2) := h_send_unrepaired s1 0 true 2 20 false true 0 in
      let '(s3, o3) := h_established s2 0 2 0 in (s3, o1 ++ o2 ++ o3)) = (s, o) /\
     In (OSent 0) o /\ dials s = [] /\ active s = [(0, 1)] /\ terms 0 o = 0%nat).
+Check (C13_response_wire :
+  forall (cf : cfg) (evs : list ev) (c l t : N),
+    let steps := run_steps cf (init_pst, init_env) evs in
+    In (OWireR c l t) (outs_of steps) ->
+    exists irid,
+      (exists e o p lq tq, In (e, o, Some c) steps /\ In (OReq irid p lq tq) o) /\
+      (exists k fb o, In (EURespond k l t fb, o, Some irid) steps)).
+Check (C13_respond_once :
+  forall (cf : cfg) (evs : list ev), NoDup (answer_ids (run_steps cf (init_pst, init_env) evs))).
+Check (C13_reader_leaves_only_on_carrier_event :
+  forall (cf : cfg) (s : pst) (en : env) (e : ev) (rd : rdr),
+    let r := step cf (s, en) e in
+    In rd (rdrs s) -> ~ In rd (rdrs (fst (fst (fst r)))) ->
+    carrier_read e = true /\ snd r = Some (r_chan rd)).
+Check (C13_silent_remotes_pin_slots :
+  forall (cf : cfg) (m : N) (evs : list ev) (s : pst) (en : env),
+    max_inb cf = Some m -> m <= N.of_nat (length (rdrs s)) ->
+    let steps := run_steps cf (s, en) evs in
+    forallb (fun x => negb (touches (map r_chan (rdrs s)) x)) steps = true ->
+    rdrs (fst (fst (run cf (s, en) evs))) = rdrs s /\
+    forall x, In x steps -> has_req (snd (fst x)) = false).
+Check (C13_full_refuses :
+  forall (cf : cfg) (m : N) (s : pst) (p c neg : N),
+    max_inb cf = Some m -> m <= inbound_load s -> h_inopen cf s p c neg = (s, [])).
+Check (C13_alloc_wrap :
+  (forall r0 i j, i < USIZE -> j < USIZE -> impl_id r0 i = impl_id r0 j -> i = j) /\
+  (forall r0 i, impl_id r0 (i + USIZE) = impl_id r0 i)).
+Check (C13_tables_in_sync :
+  (V.gen.C13Tables.enums = x_enums /\ V.gen.C13Tables.inner_to_outer = x_inner_to_outer /\
+   V.gen.C13Tables.poll_next = x_poll_next /\ V.gen.C13Tables.reject_from = x_reject_from /\
+   V.gen.C13Tables.handle_fns = x_handle_fns /\ V.gen.C13Tables.select_arms = x_select_arms /\
+   V.gen.C13Tables.select_biased = x_select_biased /\ V.gen.C13Tables.service_arms = x_service_arms /\
+   V.gen.C13Tables.command_arms = x_command_arms /\ V.gen.C13Tables.open_failure = x_open_failure /\
+   V.gen.C13Tables.outbound_future = x_outbound_future /\ V.gen.C13Tables.inbound_future = x_inbound_future /\
+   V.gen.C13Tables.inbound_bound = x_inbound_bound /\ V.gen.C13Tables.send_request = x_send_request /\
+   V.gen.C13Tables.codec = x_codec /\ V.gen.C13Tables.channels = x_channels /\
+   V.gen.C13Tables.builder_defaults = x_builder_defaults /\ V.gen.C13Tables.setters = x_setters /\
+   V.gen.C13Tables.allocator = x_allocator /\ V.gen.C13Tables.build = x_build) /\
+  map fst dial_codes = variants_of IMMEDIATE_DIAL_ERROR /\
+  nodupN (map snd error_codes ++ map (fun x => E_DIAL_IMM (snd x)) dial_codes) = true /\
+  forallb (fun x => N.eqb (openfail_code (fst (fst x))) (snd x)) open_failure_kinds = true).
+Check (C13_carrier_contract :
+  forall (cf : cfg) (l t : N) (cut : nat) (script : list V.C04.Model.rdev) (m : list N),
+    deliver (codec_of cf) (firstn cut (frame_for cf l t)) script = RxFrame m -> m = bytes_of l t).
+Check (C13_two_node_projection :
+  forall (cfA cfB : cfg) (ms : list mv) (x : bool),
+    let s := run2 (sys0 cfA cfB) ms in
+    log x s = run_steps (if x then cfB else cfA) (init_pst, init_env) (evs_of (log x s))).
+Check (C13_two_node_at_most_one :
+  forall (cfA cfB : cfg) (ms : list mv) (x : bool) (r : N),
+    (terms r (outs x (run2 (sys0 cfA cfB) ms)) <= 1)%nat).
+Check (C13_two_node_exactly_one :
+  forall (cfA cfB : cfg) (ms : list mv) (x : bool) (r : N),
+    let s := run2 (sys0 cfA cfB) ms in
+    settled (fst (n_st (nd x s))) -> In (OSent r) (outs x s) ->
+    terms r (outs x s) = 1%nat \/ In r (cancel_reqs (evs_of (log x s)))).
+Check (C13_two_node_responder_once :
+  forall (cfA cfB : cfg) (ms : list mv) (x : bool), NoDup (req_chans (log x (run2 (sys0 cfA cfB) ms)))).
+Check (C13_two_node_request_identical :
+  forall (cfA cfB : cfg) (ms : list mv) (b : bool) e o (cr irid p lq tq : N),
+    let s := run2 (sys0 cfA cfB) ms in
+    In (e, o, Some cr) (log b s) -> In (OReq irid p lq tq) o -> linked s b cr = true ->
+    exists k l t, In k (lks s) /\ k_a k = negb b /\ k_cr k = cr /\
+                  In (OWire (k_cq k) l t) (outs (negb b) s) /\ bytes_of lq tq = bytes_of l t).
+Check (C13_two_node_response_identical :
+  forall (cfA cfB : cfg) (ms : list mv) (a : bool) (rid len tag c : N),
+    let s := run2 (sys0 cfA cfB) ms in
+    In (OResp rid len tag) (outs a s) -> In (OBind c rid) (outs a s) -> linked s a c = true ->
+    exists k irid l' t' p lq tq l t,
+      In k (lks s) /\ k_a k = a /\ k_cq k = c /\
+      supplied (log (negb a) s) irid l' t' /\ bytes_of len tag = bytes_of l' t' /\
+      origin (log (negb a) s) irid (k_cr k) /\
+      In (OReq irid p lq tq) (outs (negb a) s) /\
+      In (OWire c l t) (outs a s) /\ bytes_of lq tq = bytes_of l t).
+Check (C13_two_node_request_wire :
+  forall (cfA cfB : cfg) (ms : list mv) (a : bool) pre p d (len tag : N) fb o tg post (rid c l t : N),
+    let s := run2 (sys0 cfA cfB) ms in
+    log a s = pre ++ (ESend p d len tag fb, o, tg) :: post ->
+    In (OSent rid) o -> In (OBind c rid) (outs a s) -> In (OWire c l t) (outs a s) ->
+    (l, t) = (len, tag) \/ exists n fl ft, fb = Some (n, fl, ft) /\ (l, t) = (fl, ft)).
